@@ -356,3 +356,59 @@ Definition run_line3 (line : string) : string :=
       else run_line2 line
   | _ => "badline"
   end.
+
+(** * spec mode (oracle for C02 / C09 / C10): Spec/DeepMerge.v on a stack of layers *)
+From RV Require Import Spec.DeepMerge.
+
+Definition run_spec (ts : list string) : string :=
+  match ts with
+  | n :: ts' =>
+      match nat_of_string n with
+      | Some n =>
+          match p_yamls n ts' with
+          | Some (ys, []) =>
+              match deep_merge run_fuel ys with
+              | SOk v => sp "ok" (canon false v)
+              | SErr (SConst k) => sp "err EConst" (canon false k)
+              | SErr SConflict => "err EMerge"
+              | SErr (SPanic s) => sp "panic" (site_name s)
+              | SFuel => "fuel"
+              end
+          | _ => "badcase"
+          end
+      | None => "badcase"
+      end
+  | _ => "badcase"
+  end.
+
+(** value2: render, then render the result again against itself (C07 fixed point) *)
+Definition run_value2 (ts : list string) : string :=
+  match ts with
+  | n :: ts' =>
+      match nat_of_string n with
+      | Some n =>
+          match p_yamls n ts' with
+          | Some (ys, []) =>
+              match (m <- merge_layers ys ;; render_with_self run_fuel (VMap m)) with
+              | Ok v1 =>
+                  match render_with_self run_fuel v1 with
+                  | Ok v2 => ("ok " ++ canon false v1 ++ " || " ++ canon false v2)%string
+                  | r => ("ok " ++ canon false v1 ++ " || " ++ canon_res (canon false) r)%string
+                  end
+              | r => canon_res (canon false) r
+              end
+          | _ => "badcase"
+          end
+      | None => "badcase"
+      end
+  | _ => "badcase"
+  end.
+
+Definition run_line4 (line : string) : string :=
+  match words line with
+  | id :: mode :: ts =>
+      if String.eqb mode "spec" then (id ++ tab ++ run_spec ts)%string
+      else if String.eqb mode "value2" then (id ++ tab ++ run_value2 ts)%string
+      else run_line3 line
+  | _ => "badline"
+  end.
